@@ -12,7 +12,6 @@ package grandpa
 
 import (
 	"errors"
-	"strconv"
 	"strings"
 
 	primitives "github.com/ChainSafe/gossamer/internal/primitives/consensus/grandpa"
@@ -23,47 +22,6 @@ import (
 	grandpa "github.com/ChainSafe/gossamer/pkg/finality-grandpa"
 	"github.com/ChainSafe/gossamer/pkg/scale"
 )
-
-func c19KV(hdr string) map[string]string {
-	m := map[string]string{}
-	for _, f := range strings.Fields(hdr) {
-		if i := strings.IndexByte(f, '='); i > 0 {
-			m[f[:i]] = f[i+1:]
-		}
-	}
-	return m
-}
-
-func c19U(s string) uint64 {
-	v, err := strconv.ParseUint(s, 10, 64)
-	if err != nil {
-		panic("c19U " + s)
-	}
-	return v
-}
-
-func c19List(s string) []uint64 {
-	if s == "-" || s == "" {
-		return nil
-	}
-	var out []uint64
-	for _, x := range strings.Split(s, ",") {
-		out = append(out, c19U(x))
-	}
-	return out
-}
-
-func c19Pairs(s string) [][2]uint64 {
-	if s == "-" || s == "" {
-		return nil
-	}
-	var out [][2]uint64
-	for _, x := range strings.Split(s, ",") {
-		ab := strings.Split(x, ":")
-		out = append(out, [2]uint64{c19U(ab[0]), c19U(ab[1])})
-	}
-	return out
-}
 
 var c19PairCache = map[uint64]ced25519.Pair{}
 
